@@ -257,14 +257,17 @@ def run(report, tier):
     report.trusted += ["Kani 0.68 / CBMC 6.11; Kani models panic! as a failing check at the macro site (message not built)"]
     backends = ["f64", "dec"]
     import concurrent.futures as cf
-    frontend.dump_repo_parallel(backends)
+    keys = E.dump_worlds(backends, astro=False, fixture=True)
+    rgen.EXTRA_SRC = synthdefs.SYNTH_RS
     pool = mpool.Pool(jobs=max(2, common.ncpu() - 10))
     try:
         with cf.ThreadPoolExecutor(max_workers=2) as ex:
             futs = [ex.submit(kani_part, report, tier, be) for be in backends]
-            desc = {be: pool.describe(be) for be in backends}
-            tasks = [(be, q) for be in backends for q in desc[be]["qty"] if not desc[be]["has_ref"][q]]
-            report.bounds["e2"] = "Temperature in both back-ends: all 9 ordered unit pairs, uninterpreted amounts"
+            desc = E.describe_worlds(pool, keys)
+            tasks = [(keys[label], q) for label in keys for q in desc[label]["qty"] if not desc[label]["has_ref"][q]
+                     and not (label.startswith("fix") and q not in desc[label].get("own", []))
+                     and len(desc[label]["units"][q]) > 1]
+            report.bounds["e2"] = "Temperature and the synthetic no-reference types Tri and Tariff in both back-ends: all ordered unit pairs, uninterpreted amounts"
             cands = pool.run(report, task, tasks)
             pool.cross_check(report)
             E.native_confirm(report, "C10", cands, desc, oracle, probes=E.probe_amounts_2)
